@@ -81,7 +81,7 @@ Definition accepted (vectorize : bool) (inp : arr * list nat) : bool :=
 
 (* CircuitTemplate.run(solver = euler | heun, inputs = ..., sampling_step_size = dts, cutoff = ...) on the network, all
    units requested as outputs; the input arrays are indexed with the step counter whatever the sampling step *)
-Definition run_inputs (s : solver) (vectorize : bool) (depth : nat) (T dt : Qc) (dts : option Qc) (cutoff udef : Qc)
+Definition run_inputs_core (s : solver) (vectorize : bool) (depth : nat) (T dt : Qc) (dts : option Qc) (cutoff udef : Qc)
            (W : list row) (inputs : list (arr * list nat)) (x0 : row) : outcome :=
   (* `depth` = hierarchy depth of the circuit: since fix D89 (_add_input_node nests CircuitTemplate objects) the input
      node is placed in input_lvl_i circuits of the same depth and the result does not depend on it (before: any input at
@@ -89,6 +89,44 @@ Definition run_inputs (s : solver) (vectorize : bool) (depth : nat) (T dt : Qc) 
   if negb (forallb (accepted vectorize) inputs) then ErrShape           (* (N,n) needs vectorize and n = #targets *)
   else if existsb (fun inp => (alen (fst inp) <? rnd (T / dt))%nat) inputs then ErrIndex   (* index(inp, t) past the end *)
   else run_model (net_rhs udef W inputs) s T dt dts cutoff (seq 0 (length x0)) x0 tt.
+
+(* An array with a single time sample.  The compiled constant of shape (1,) / (1,n) loses its leading axis (it is squeezed
+   to 0-d / to (n,)), so its only row is taken for the time axis:
+     (1,) and (1,1)              : IndexError (too many indices for a 0-d array) at the first call;
+     (1,n), vectorize = False    : IndexError (invalid index to scalar variable);
+     (1,n), vectorize, n < 10    : ValueError (an (n,n) block cannot be broadcast into (n,)) -- the dot-product edge branch;
+     (1,n), vectorize, n >= 10   : SILENT -- the indexed edge branch (used from 10 target units on) broadcasts
+                                   u_input[t] = row[t] to every unit: the n columns are read as n time samples.
+   (Such an array is shorter than any run of >= 2 steps, i.e. outside the contract (N_steps, n_cols) there; with one
+   step it is inside the contract and fails as listed: finding `single_sample`.) *)
+Definition indexed_branch_min : nat := 10.
+Definition squeeze_single (vectorize : bool) (inp : arr * list nat) : outcome + (arr * list nat) :=
+  match normalise (fst inp) with
+  | A1 [_] => inl ErrIndex
+  | A2 [r] => if negb vectorize then inl ErrIndex
+              else if (length r <? indexed_branch_min)%nat then inl ErrShape
+              else inr (A1 r, snd inp)
+  | _ => inr inp
+  end.
+Fixpoint squeeze_all (vectorize : bool) (inputs : list (arr * list nat)) : outcome + list (arr * list nat) :=
+  match inputs with
+  | [] => inr []
+  | inp :: rest =>
+      match squeeze_single vectorize inp with
+      | inl o => inl o
+      | inr inp' => match squeeze_all vectorize rest with inl o => inl o | inr rest' => inr (inp' :: rest') end
+      end
+  end.
+
+Definition run_inputs (s : solver) (vectorize : bool) (depth : nat) (T dt : Qc) (dts : option Qc) (cutoff udef : Qc)
+           (W : list row) (inputs : list (arr * list nat)) (x0 : row) : outcome :=
+  match squeeze_all vectorize inputs with
+  | inl o => o
+  | inr inputs' => run_inputs_core s vectorize depth T dt dts cutoff udef W inputs' x0
+  end.
+
+(* every array has at least two time samples *)
+Definition multi_sample (inputs : list (arr * list nat)) : bool := forallb (fun inp => (2 <=? alen (fst inp))%nat) inputs.
 
 (* get_run_func(inputs = ..., solver = 'scipy'): the vector field at time t, state x; T = N * step_size *)
 Definition vf_adaptive (dt udef : Qc) (W : list row) (inputs : list (arr * list nat)) (t : Qc) (x : row) : option row :=
